@@ -240,10 +240,13 @@ def clash_schema(rng, hazard_rate=0.04):
     return sch, feat
 
 
-def path_clash_schema(rng):
-    """the three-way `size_bytes` parameter-name clash family: groups whose paths concatenate equally"""
+def path_clash_schema(rng, force=None):
+    """the three-way `size_bytes` parameter-name clash family: groups whose paths concatenate equally;
+    `force` = (number of ways, inside a group?) for the fixed probes"""
     parts = ['a', 'b', 'c', 'd']
     cuts = rng.sample([1, 2, 3], rng.choice([2, 3, 3]))
+    if force:
+        cuts = [1, 2, 3][:force[0]]
     lvl_groups = []
     for cut in sorted(cuts):
         top = '_'.join(parts[:cut])
@@ -252,6 +255,8 @@ def path_clash_schema(rng):
                            'groups': [{'name': inner, 'id': 10 + cut, 'dim': 'groupSizeEncoding',
                                        'fields': [{'name': 'x', 'id': 1, 'type': 'uint8'}], 'groups': [], 'datas': []}]})
     inside_group = rng.random() < 0.4
+    if force:
+        inside_group = force[1]
     if inside_group:
         lvl_groups = [{'name': 'outer', 'id': 99, 'dim': 'groupSizeEncoding', 'fields': [], 'datas': [],
                        'groups': lvl_groups}]
